@@ -15,7 +15,8 @@
 (***************************************************************************)
 EXTENDS Naturals, Integers, Sequences, FiniteSets, TLC, XpmSchema
 
-CONSTANT FixF1   \* TRUE: a cached identifier computed inside a cycle is not reused (has_loops honoured)
+CONSTANT FixF1,  \* TRUE: a cached identifier computed inside a cycle is not reused (has_loops honoured)
+         FixF18  \* TRUE: generated values take no part in `default == value` (repaired); FALSE: they do (pinned)
 
 INF == 9999
 Range(q) == {q[i] : i \in DOMAIN q}
@@ -44,13 +45,30 @@ PosIn(path, m) == IF \E i \in DOMAIN path : path[i] = m THEN CHOOSE i \in DOMAIN
 (* the cache state: c.sealed[n], c.rawc[n] = <<>> (nothing cached) or <<[s, loops]>> *)
 NoCache(g) == [sealed |-> [n \in Nodes(g) |-> FALSE], rawc |-> [n \in Nodes(g) |-> <<>>]]
 
+(* `default == value` when the default is a configuration (Config.__eq__): same class and, for every argument of
+   the default, the same value.  Pinned behaviour (FixF18 = FALSE): generated arguments are compared too -- they are
+   None in the default and in an unsealed copy and hold a value once the copy is sealed, so the identifier of the
+   holder changed when it was sealed (and paths generated earlier landed outside the final job directory).
+   sl[m] = m is sealed. *)
+GivenVal(dflt, arg) ==
+  LET hit == SelectSeq(dflt[3], LAMBDA nv : nv[1] = arg.name)
+  IN IF hit # <<>> THEN hit[1][2] ELSE IF arg.default # <<"nodefault">> THEN arg.default ELSE <<"none">>
+EqualsCfgDefault(g, sl, dflt, raw) ==
+  /\ IsCfg(raw)
+  /\ LET m == raw[2] IN
+       /\ g[m].cls = dflt[2]
+       /\ \A i \in DOMAIN ArgsOf[dflt[2]] :
+            LET arg == ArgsOf[dflt[2]][i]
+            IN IF arg.generator THEN (FixF18 \/ ~sl[m]) ELSE arg.constant \/ Val(g, m, arg.name) = GivenVal(dflt, arg)
+
 (* is the argument skipped by the argument loop of HashComputer.update ? *)
-Skipped(g, n, arg) ==
+Skipped(g, sl, n, arg) ==
   LET raw == Val(g, n, arg.name)
   IN \/ arg.ignored /\ ~(IsCfg(raw) /\ g[raw[2]].meta = "false")
      \/ arg.generator
      \/ ~arg.constant /\ ( (~arg.required /\ arg.default = <<"nodefault">> /\ raw = <<"none">>)
-                          \/ (arg.default # <<"nodefault">> /\ arg.default = RemoveMeta(g, raw)) )
+                          \/ (arg.default # <<"nodefault">> /\ arg.default[1] # "cfgdefault" /\ arg.default = RemoveMeta(g, raw))
+                          \/ (arg.default[1] = "cfgdefault" /\ EqualsCfgDefault(g, sl, arg.default, raw)) )
      \/ MetaTrue(g, raw)
 
 RECURSIVE EncVal(_, _, _, _), EncNode(_, _, _, _), EncSeq(_, _, _, _), EncDict(_, _, _, _, _), Compute(_, _, _, _), EncArgs(_, _, _, _, _)
@@ -101,7 +119,7 @@ EncArgs(g, c, path, n, args) ==
   IF args = <<>> THEN [s |-> <<>>, mr |-> INF]
   ELSE LET arg == Head(args)
            rest == EncArgs(g, c, path, n, Tail(args))
-       IN IF Skipped(g, n, arg) THEN rest
+       IN IF Skipped(g, c.sealed, n, arg) THEN rest
           ELSE LET nm == EncVal(g, c, path, <<"str", arg.name>>)
                    vv == EncVal(g, c, path, Val(g, n, arg.name))
                IN [s |-> nm.s \o <<5>> \o vv.s \o rest.s, mr |-> Min(vv.mr, rest.mr)]
@@ -171,7 +189,7 @@ SigVal(g, path, v) ==
 
 SigArgs(g, path, n, args) ==
   IF args = <<>> THEN <<>>
-  ELSE (IF Skipped(g, n, Head(args)) THEN <<>> ELSE <<<<Head(args).name, SigVal(g, path, Val(g, n, Head(args).name))>>>>)
+  ELSE (IF Skipped(g, [m \in Nodes(g) |-> FALSE], n, Head(args)) THEN <<>> ELSE <<<<Head(args).name, SigVal(g, path, Val(g, n, Head(args).name))>>>>)
          \o SigArgs(g, path, n, Tail(args))
 
 SigNode(g, path, n) ==
